@@ -6,7 +6,9 @@ Property theorems only.  The model (Rc/Model/Mrt.lean) mirrors src/mrt.rs;
 `encFile` / `encRecs` are the reference encoder for TABLE_DUMP_V2 / BGP4MP
 files; `WfFile` / `WfRec` (Rc/Lemmas/Mrt.lean) say that a content description
 is encodable per RFC 6396 (field ranges, address lengths, prefix host bits
-zero, every RIB table has at least one entry, every peer index is in range).
+zero, every peer index is in range; a RIB table may have any number of entries,
+ZERO included – RFC 6396 4.3.2 allows Entry Count 0; `RibEntryIterator` passes
+such a table over since the repair F34).
 Path attributes and embedded BGP messages are arbitrary byte strings.
 -/
 import Rc.Lemmas.Mrt
@@ -46,6 +48,16 @@ def demoFile : FileSpec :=
                ⟨1727740800, 1, true, 33, [0x20, 1, 0xd, 0xb8, 0x80], [⟨1, 7, [0x40, 1, 1, 2]⟩]⟩] }
 
 example : WfFile demoFile := by decide
+
+/-- the same file with tables WITHOUT entries (Entry Count 0) in front of, between and after the
+others: inside `WfFile`, so every TABLE_DUMP_V2 theorem below speaks about it (before the repair
+F34 `rib_entries()` panicked on it while `tables()` and `rib_entries_mt()` did not) -/
+def demoFileEmptyTables : FileSpec :=
+  { demoFile with tables :=
+      [⟨1, 9, false, 8, [10], []⟩] ++ demoFile.tables.take 1 ++ [⟨2, 10, true, 0, [], []⟩, ⟨3, 11, false, 0, [], []⟩]
+        ++ demoFile.tables.drop 1 ++ [⟨4, 12, true, 128, List.replicate 16 255, []⟩] }
+
+example : WfFile demoFileEmptyTables := by decide
 
 /-- a STATE_CHANGE_AS4 over IPv6 with extended timestamp and a MESSAGE (2-octet
 AS, IPv4) carrying a KEEPALIVE -/
